@@ -138,6 +138,9 @@ class Ctx:
         kf = os.path.join(VERIF, "known_findings", pid + ".json")
         self.known = json.load(open(kf))["findings"] if os.path.exists(kf) else []
         os.makedirs(os.path.join(VERIF, "replays"), exist_ok=True)
+        import glob as _glob
+        for old in _glob.glob(os.path.join(VERIF, "replays", pid + "-*.json")):
+            os.remove(old)
         os.makedirs(os.path.join(VERIF, "evidence"), exist_ok=True)
 
     # ---------------------------------------------------------------- translator
